@@ -74,6 +74,8 @@ ADVERSARIAL = [
     'class A:\n    def f(self):\n        self.a = self.b\n        self.b = self.a\n        self.a.x\n        self.b\n',
     'class A(A): pass\nA.x\nA().y\nclass B(C): pass\nclass C(D): pass\nclass D(B):\n    d = 1\nB().d\nC.d\n',
     'x = x.y = x\nx.y.y\n',
+    'import os  # type: module\nx = 1  # type: int\nif x:  # type: ignore\n    y = [  # type: list\n        x]\n# type: str\nprint(x, y)\n',
+    'def f(a, b):  # type: (int, str) -> None\n    return a  # type: ignore[misc]\nf(1,  # type: int\n  2)\n',
 ]
 
 
